@@ -442,7 +442,10 @@ Error BaseCompiler::_new_const(Out<BaseMem> out, ConstPoolScope scope, const voi
   }
 
   if (!_const_pools[uint32_t(scope)]) {
-    ASMJIT_PROPAGATE(new_const_pool_node(Out(_const_pools[uint32_t(scope)])));
+    // Only remember the pool once it has been fully created (it has no label if its registration failed).
+    ConstPoolNode* new_pool;
+    ASMJIT_PROPAGATE(new_const_pool_node(Out(new_pool)));
+    _const_pools[uint32_t(scope)] = new_pool;
   }
 
   ConstPoolNode* pool = _const_pools[uint32_t(scope)];
